@@ -136,7 +136,7 @@ def h_copy(ctx):
     return None
 
 
-OPS = ["platform-nxos", "port_nr", "protocol_nr", "resequence", "sort", "group", "ungroup", "type", "platform-ios"]
+OPS = ["platform-nxos", "port_nr", "protocol_nr", "resequence", "sort", "group", "ungroup", "type", "platform-ios", "ungroup_ports"]
 
 
 def _apply(acl, op):
@@ -158,6 +158,8 @@ def _apply(acl, op):
         acl.ungroup()
     elif op == "type":
         acl.type = "extended"
+    elif op == "ungroup_ports":
+        acl.ungroup_ports()
 
 
 def _flat(acl):
@@ -177,7 +179,8 @@ def h_ids(ctx):
     chain = ctx.pick("chain", CHAINS)
     # identifiers do not depend on field values: the text is concrete here (sorting compares rendered text)
     txt = ("ip access-list extended A1\n  remark = g1, first\n  permit ip 10.1.1.0 0.0.0.255 any\n  remark note\n"
-           "  permit tcp host 10.1.1.1 any eq 80 443 log\n  remark = g2\n  deny tcp any host 10.2.2.2 ack\n  deny ip any any")
+           "  permit tcp host 10.1.1.1 any eq 80 443 log\n  remark = g2\n  deny tcp any host 10.2.2.2 ack\n  permit udp any eq 53 any\n"
+           "  permit tcp any any neq 25\n  deny ip any any")
     acl = Acl(txt, platform="ios", port_nr=True, group_by="= " if grouped else "", note="acl-note")
     for k, it in enumerate(_flat(acl)):
         it.note = f"note{k}"
@@ -193,7 +196,7 @@ def h_ids(ctx):
         if op in ("group", "ungroup"):
             regrouping = True
     # a multi-port entry converted to NX-OS is replaced by its split entries (allowed): compare the others
-    split = any(op == "platform-nxos" for op in chain)
+    split = any(op in ("platform-nxos", "ungroup_ports") for op in chain)
     ids1 = [(it.uuid, it.note) for it in _flat(acl)]
     if split:
         ids0 = [x for x in ids0 if x[1] != "note3"]
